@@ -928,3 +928,114 @@ func (f *Fn) FailurePropagates(r *Rule, a *Sites, label string) bool {
 	}
 	return ok
 }
+
+// LoopSelectsAll checks that the loop enclosing the sites of sel examines
+// every element: within one iteration either a site of sel is passed or an
+// edge on which one of the skip atoms holds is taken; the loop is never left
+// from inside its body (no break, no return).
+func (f *Fn) LoopSelectsAll(r *Rule, sel *Sites, label string, skip ...AtomPred) bool {
+	key := f.Name + ": " + label
+	sel = sel.Sync()
+	r.AddSites(sel.Len())
+	if sel.Len() == 0 {
+		r.Fail(key, f.P.Pos(f.Body.Pos()), "no site of %q in %s (rule would be vacuous)", sel.Desc, f.Name)
+		return false
+	}
+	var loop ast.Node
+	for p := f.parent[sel.List[0].Node]; p != nil; p = f.parent[p] {
+		switch p.(type) {
+		case *ast.ForStmt, *ast.RangeStmt:
+			loop = p
+		}
+		if loop != nil {
+			break
+		}
+	}
+	if loop == nil {
+		r.Fail(key, f.P.Pos(sel.List[0].Node.Pos()), "%s is not inside a loop", sel.Desc)
+		return false
+	}
+	body := -1
+	var heads, done []int
+	for b, id := range f.G.blockE {
+		if b.Stmt != loop {
+			continue
+		}
+		switch b.Kind {
+		case cfg.KindForBody, cfg.KindRangeBody:
+			body = id
+		case cfg.KindForLoop, cfg.KindRangeLoop, cfg.KindForPost:
+			heads = append(heads, id)
+		case cfg.KindForDone, cfg.KindRangeDone:
+			done = append(done, id)
+		}
+	}
+	if body < 0 {
+		r.Fail(key, f.P.Pos(loop.Pos()), "loop body not found in the control-flow graph")
+		return false
+	}
+	cutV := sel.Vs()
+	cutE := f.EdgesImplyingAny(skip...)
+	ok := true
+	targets := append(append([]int{f.G.Exit}, heads...), done...)
+	for _, t := range targets {
+		if p := f.FPath([]int{body}, t, cutV, cutE); p != nil {
+			what := "an element is skipped without the stated reason"
+			for _, d := range done {
+				if d == t {
+					what = "the loop is left early (break)"
+				}
+			}
+			if t == f.G.Exit {
+				what = "the function returns from inside the loop"
+			}
+			r.Fail(key, f.P.Pos(loop.Pos()), "%s; path (lines): %s", what, f.DescribePath(p))
+			ok = false
+		}
+	}
+	return ok
+}
+
+// EdgesImplyingAny returns the control-flow edges on which the disjunction of
+// the given atom predicates is known to hold (decided by truth table over the
+// atoms of the branching condition): e.g. the true edge of `a || !b` for the
+// predicates {a, !b}.
+func (f *Fn) EdgesImplyingAny(preds ...AtomPred) map[[2]int]bool {
+	out := map[[2]int]bool{}
+	for _, v := range f.G.Vs {
+		if !v.IsCond {
+			continue
+		}
+		atoms := map[string]bool{}
+		cf := f.FormulaOf(v.Cond, atoms)
+		var disj fOr
+		for k := range atoms {
+			for _, p := range preds {
+				if p.M(Atom{k, true}) {
+					disj = append(disj, fAtom(k))
+				}
+				if p.M(Atom{k, false}) {
+					disj = append(disj, fNot{fAtom(k)})
+				}
+			}
+		}
+		if len(disj) == 0 {
+			continue
+		}
+		for _, val := range []bool{true, false} {
+			var edgeF Formula = cf
+			if !val {
+				edgeF = fNot{cf}
+			}
+			// edgeF ⇒ disj  ≡  ¬edgeF ∨ disj is a tautology
+			if eq, _ := Equivalent(fOr{fNot{edgeF}, disj}, fConst(true), atoms); eq {
+				if val {
+					out[[2]int{v.ID, v.TrueSucc}] = true
+				} else {
+					out[[2]int{v.ID, v.FalseSucc}] = true
+				}
+			}
+		}
+	}
+	return out
+}
